@@ -211,6 +211,15 @@ def _mirsym():
         bounds="payload lengths {0,1,3} (quick) / 0..8 (thorough), bytes symbolic", spec=se.EnvelopeStoreSpec(),
         stubs=["Sha256 -> uninterpreted hash", "inner BlobWriter::store -> records the bytes"])
 
+    from .specs import apicodec as sa
+    add("C16.a/delta_stats", "C16", "mirsym", Q, "determine_delta_compressability: exact min/max first and second differences for every i64 sequence, no panic (the statistics choose the wire encoding of integer columns)",
+        ["locustdb_serialization::api::determine_delta_compressability"], bounds="sequences of 0..3 (quick) / 0..5 (thorough) arbitrary i64; counterexamples replayed on QueryResponse::serialize -> deserialize",
+        spec=sa.DeltaStatsSpec())
+    add("C16.a/delta_encode", "C16", "mirsym", Q, "delta_encode::<i8|i16|i32> emits the exact differences whenever the caller's guard (all differences fit T) holds; no panic",
+        ["locustdb_serialization::api::delta_encode"], bounds="sequences of 1..3 (quick) / 1..5 (thorough) i64 with differences in T's range", spec=sa.DeltaEncodeSpec())
+    add("C16.a/double_delta_encode", "C16", "mirsym", Q, "double_delta_encode::<i8|i16|i32> emits the exact second differences whenever they fit T; no panic",
+        ["locustdb_serialization::api::double_delta_encode"], bounds="sequences of 2..3 (quick) / 2..5 (thorough) i64 with second differences in T's range", spec=sa.DoubleDeltaEncodeSpec())
+
 
 _mirsym()
 
